@@ -11,6 +11,7 @@ UNITS = [
     D.scalar_unit("c06_discrete_distance", "h_c06_disc", ["DiscreteStateSpace::distance", "DiscreteStateSpace::equalStates", "DiscreteStateSpace::getMaximumExtent"],
                   [dict(name="extent_off_by_one", where="body:disc_extent", rx=r"upperBound_ - lowerBound_", repl="upperBound_ - lowerBound_ - 1")]),
 ]
+UNITS.append(D.wrapper_unit("c06_wrapper_forwarders"))
 ASSUMPTIONS = D.FP_ASSUMPTIONS + ["states are in bounds (SO2, Discrete) / finite (Time)"]
 TRUSTED = ["extraction rewrite table units/spaces_defs.py", "stubs units/spaces/fp_stubs.h", "CBMC 6.11 + kissat/cadical"]
 NOT_COVERED = ["Time: distance <= maximum extent (monotonicity of rounded subtraction; the solver did not finish in 15 min)", "triangle inequality for continuous spaces (true only in exact arithmetic; bit-precise multiplication is out of the solver's reach)",
@@ -40,17 +41,19 @@ def replay(ur, scratch, seed):
 SSF = "src/ompl/base/src/StateSpace.cpp"
 M_RULES = [
     (r"throw Exception\(\"[^\"]*\"\);", "{ thrown = 1; return; }", 0), (r"space_->getMaximumExtent\(\)", "WRAPPED_EXTENT()", 0),
-    (r"BOOST_ASSERT_MSG\(.*?\);", "", 0, __import__("re").S), (r"arcLength\(state1, state2\)", "ARCLENGTH()", 0), (r"std::numeric_limits<double>::epsilon\(\)", "DBL_EPSILON", 0),
+    (r"BOOST_ASSERT_MSG\(.*?\);", "", 0, __import__("re").S), (r"\barcLength\(", "so3_arcLength(", 0), (r"const auto \*(qs\d) = static_cast<const (?:SO3StateSpace::)?StateType \*>\((\w+)\);", r"const SO3State *\1 = \2;", 0),
+    (r"qs1->x \* qs2->x \+ qs1->y \* qs2->y \+ qs1->z \* qs2->z \+ qs1->w \* qs2->w", "DOT4(qs1, qs2)", 0), (r"(?<![\w.])acos\(", "ACOS_(", 0), (r"std::numeric_limits<double>::epsilon\(\)", "DBL_EPSILON", 0),
 ]
 M_SRC = [
     dict(name="setSubspaceWeight", file=SSF, sig=r"void ompl::base::CompoundStateSpace::setSubspaceWeight\(const unsigned int index, double weight\)", rules=M_RULES, loops={}),
     dict(name="wrapper_extent", file="src/ompl/base/spaces/WrapperStateSpace.h", sig=r"double getMaximumExtent\(\) const override", rules=M_RULES, loops={}),
+    dict(name="so3_arcLength", file="src/ompl/base/spaces/src/SO3StateSpace.cpp", sig=r"static inline double arcLength\(const State \*state1, const State \*state2\)", rules=M_RULES, loops={}),
     dict(name="so3_distance", file="src/ompl/base/spaces/src/SO3StateSpace.cpp", sig=r"double ompl::base::SO3StateSpace::distance\(const State \*state1, const State \*state2\) const", rules=M_RULES, loops={}),
     dict(name="so3_equalStates", file="src/ompl/base/spaces/src/SO3StateSpace.cpp", sig=r"bool ompl::base::SO3StateSpace::equalStates\(const State \*state1, const State \*state2\) const", rules=M_RULES, loops={}),
 ]
 for nm, ent, fn, needs, can in (("c06_compound_setSubspaceWeight", "h_setSubspaceWeight", ["CompoundStateSpace::setSubspaceWeight"], ["setSubspaceWeight"], [dict(name="tests_the_old_weight", where="body:setSubspaceWeight", rx=r"if \(weight < 0\.0\)", repl="if (index < NW && weights_[index] < 0.0)")]),
                          ("c06_wrapper_getMaximumExtent", "h_wrapper_extent", ["WrapperStateSpace::getMaximumExtent"], ["wrapper_extent"], [dict(name="returns_a_cached_value", where="body:wrapper_extent", rx=r"return WRAPPED_EXTENT\(\);", repl="static double cached_; return cached_;")]),
-                         ("c06_so3_equal_vs_distance", "h_so3_equal", ["SO3StateSpace::distance", "SO3StateSpace::equalStates"], ["so3_distance", "so3_equalStates"], [dict(name="equality_by_components", where="body:so3_equalStates", rx=r"return ARCLENGTH\(\) < DBL_EPSILON;", repl="ARCLENGTH(); return 0;")])):
+                         ("c06_so3_equal_vs_distance", "h_so3_equal", ["SO3StateSpace::distance", "SO3StateSpace::equalStates"], ["so3_arcLength", "so3_distance", "so3_equalStates"], [dict(name="sign_of_the_dot_product_matters", where="body:so3_arcLength", rx=r"fabs\(DOT4\(qs1, qs2\)\)", repl="DOT4(qs1, qs2)")])):
     UNITS.append(dict(name=nm, template="spaces/c06_misc.c", mode="plain", entry=ent, flags=["--bounds-check", "--pointer-check"], level="proof", backend="cadical", timeout=300, functions=fn, sources=M_SRC, needs=needs, canaries=can))
 # ---------------------------------------------------------------- RealVector extent / distance, term by term (recording stubs for d*d and sqrt)
 RVF = "src/ompl/base/spaces/src/RealVectorStateSpace.cpp"
